@@ -281,12 +281,96 @@ def rule_literals(run):
     run.end()
 
 
+def rule_backend_sites(run):
+    run.begin(
+        "C05.d",
+        "every back-end assignment form converts its source for the QUALIFIED target object (root and reference spec "
+        "decide the cast): signal and variable assignments call format_cast(self._target.result, ..); every alternative "
+        "of a selected assignment - including `when others` - is written with the target as hint",
+        floor=5,
+    )
+    vh = run.idx.mod("cohdl/_compiler/backend/vhdl/_vhdl_repr.py")
+    for cname in ("SignalAssignment", "VariableAssignment"):
+        w = vh.func(f"{cname}.write")
+        casts = [c for c in calls_in(w.node) if isinstance(c.func, ast.Attribute) and c.func.attr == "format_cast"]
+        if not casts:
+            raise AnalysisError(f"{cname}.write: format_cast call not found")
+        for k, c in enumerate(casts):
+            a0 = src(c.args[0]) if c.args else "?"
+            a1 = src(c.args[1]) if len(c.args) > 1 else "?"
+            run.ob(a0 == "self._target.result" and a1 == "self._source.result", f"vhdl.{cname}.write", file=vh.rel, line=c.lineno, detail=f"cast#{k}",
+                   expected="format_cast(self._target.result, self._source.result, <text>)", found=f"format_cast({a0}, {a1}, ..)")
+        # the array form hands the (decayed) target to the source's writer
+        arr = [c for c in calls_in(w.node) if src(c.func) == "self._source.write"]
+        hinted = [c for c in arr if len(c.args) == 2]
+        run.ob(len(arr) == 2 and len(hinted) == 1, f"vhdl.{cname}.write", file=vh.rel, line=w.node.lineno, detail="array-hint", expected="array sources are written with the target as hint, scalars are cast", found=f"{len(arr)} writes, {len(hinted)} hinted")
+    sw = vh.func("SelectWith.write")
+    # every f-string that ends in a `when ...` choice writes its value with the target hint
+    n = 0
+    for js in ast.walk(sw.node):
+        if isinstance(js, ast.JoinedStr) and any(isinstance(v, ast.Constant) and " when " in str(v.value) for v in js.values):
+            first = next((v for v in js.values if isinstance(v, ast.FormattedValue)), None)
+            c = first.value if first is not None else None
+            n += 1
+            ok = isinstance(c, ast.Call) and isinstance(c.func, ast.Attribute) and c.func.attr == "write" and len(c.args) == 2 and src(c.args[1]) == "self._target.result"
+            kind = "others" if any(isinstance(v, ast.Constant) and "others" in str(v.value) for v in js.values) else "choice"
+            run.ob(ok, "vhdl.SelectWith.write", file=vh.rel, line=js.lineno, detail=f"alternative[{kind}]", expected="<value>.write(scope, self._target.result) when ..", found=src(c)[:70] if c is not None else "?")
+    if n < 2:
+        raise AnalysisError("SelectWith.write: alternatives not recognised")
+    # the vector constructor that Signed/Unsigned delegate BitVector sources to enforces equal width unconditionally
+    bv = run.idx.mod(BV)
+    for fn in ("BitVector.__init__", "BitVector._assign"):
+        f = bv.func(fn)
+        ws = [a for a in walk_local(f.node) if isinstance(a, ast.Assert) and "_width" in src(a.test) or isinstance(a, ast.Assert) and ".width" in src(a.test)]
+        weak = [a for a in ws if not (isinstance(a.test, ast.Compare) and len(a.test.ops) == 1 and isinstance(a.test.ops[0], ast.Eq))]
+        run.ob(bool(ws) and not weak, fn, file=bv.rel, line=f.node.lineno, detail="equal-width", expected="assert <source width> == <own width> with no alternative", found="ok" if ws and not weak else "; ".join(src(a.test)[:60] for a in weak) or "no width assertion")
+    run.end()
+
+
+def rule_bit_literals(run):
+    run.begin(
+        "C05.bit",
+        "Bit literals: exactly the characters the emitter can write back are accepted - every state from_str can produce "
+        "has its own character in __str__ (otherwise a literal is accepted and emitted as a different value)",
+        floor=4,
+    )
+    bm = run.idx.mod("cohdl/_core/_bit.py")
+    fs = bm.func("BitState.from_str")
+    ts = bm.func("BitState.__str__")
+
+    def table(fn, from_char):
+        out = {}
+        for n in walk_local(fn.node):
+            if isinstance(n, ast.If) and isinstance(n.test, ast.Compare) and len(n.test.ops) == 1:
+                r = [x for x in n.body if isinstance(x, ast.Return)]
+                if not r:
+                    continue
+                l, rr = n.test.left, n.test.comparators[0]
+                if from_char and isinstance(rr, ast.Constant) and isinstance(rr.value, str):
+                    out[rr.value] = (dotted(r[0].value) or "").split(".")[-1]
+                elif not from_char and (dotted(rr) or "").startswith("BitState.") and isinstance(r[0].value, ast.Constant):
+                    out[(dotted(rr)).split(".")[-1]] = r[0].value.value
+        return out
+    parse, emit = table(fs, True), table(ts, False)
+    if len(parse) < 4 or len(emit) < 4:
+        raise AnalysisError(f"BitState tables not recognised ({len(parse)}, {len(emit)})")
+    # the emitter's fall-through value (the final `else: return "-"`)
+    dflt = None
+    for r in walk_local(ts.node):
+        if isinstance(r, ast.Return) and isinstance(r.value, ast.Constant) and isinstance(r.value.value, str) and r.value.value not in emit.values():
+            dflt = r.value.value
+    for ch, st in sorted(parse.items()):
+        back = emit.get(st, dflt)
+        run.ob(back == ch, "BitState.from_str", file=bm.rel, line=fs.node.lineno, detail=f"literal {ch!r}", expected=f"{st} is written back as {ch!r}", found=f"written as {back!r}" if back else f"{st} has no character of its own (falls through to the default)")
+    run.end()
+
+
 def rule_shadow(run):
     from ..rules import shadow
     shadow.run_rule(run, "F-SHADOW")
 
 
-RULES = [rule_front, rule_back, rule_trial, rule_join, rule_literals, rule_shadow]
+RULES = [rule_front, rule_back, rule_trial, rule_join, rule_literals, rule_shadow, rule_backend_sites, rule_bit_literals]
 LEVEL = "other"
 EXPLANATION = (
     "Conversion matrices decided statically for all widths and values: (front end) the accept/reject decision and "
